@@ -9,7 +9,7 @@ Example render_ex :
   = zs "a+ +b<! --b/ /x/g in 1 .c-- >a".
 Proof. vm_compute. reflexivity. Qed.
 Example print_ex :
-  print_expr false false (EBin BAdd (EId (zs "a")) (EBin BMul (EUn UPos (EId (zs "b"))) (EBin BSub (EId (zs "a")) (EUn UNeg (ENum (zs "1"))))))
+  print_expr false false true (EBin BAdd (EId (zs "a")) (EBin BMul (EUn UPos (EId (zs "b"))) (EBin BSub (EId (zs "a")) (EUn UNeg (ENum (zs "1"))))))
   = zs "a + +b * (a - -1)".
 Proof. vm_compute. reflexivity. Qed.
 
@@ -62,30 +62,30 @@ Proof.
   unfold ex_tree. simpl. unfold word_ok, word_shape, id_shape, num_shape, re_shape.
   repeat split; try discriminate; try (left; repeat split; try discriminate; vm_compute; reflexivity); try (vm_compute; reflexivity); try (intro; reflexivity); try (intro; discriminate).
 Qed.
-Example ex_tree_print : print_expr true false ex_tree = zs "a.b=(-c)**2,(d||e)??f++,typeof/x/g".
+Example ex_tree_print : print_expr true false true ex_tree = zs "a.b=(-c)**2,(d||e)??f++,typeof/x/g".
 Proof. vm_compute. reflexivity. Qed.
-Example ex_tree_parse : parse_text false (print_expr true false ex_tree) = Some (norm ex_tree) /\ norm ex_tree <> ex_tree.
+Example ex_tree_parse : parse_text false (print_expr true false true ex_tree) = Some (norm ex_tree) /\ norm ex_tree <> ex_tree.
 Proof. split; [vm_compute; reflexivity | vm_compute; discriminate]. Qed.
 Example ex_tree_lexok : lexok ex_tree /\ lexok (EUn UPreInc (EDot (EBin BAdd (ENum (zs "1")) (EId (zs "a"))) (zs "b"))).
 Proof. simpl. repeat split; try (intro; reflexivity); try (intro; discriminate). Qed.
-Example ex_tree_roundtrip : parse_text false (print_expr false false ex_tree) = Some (norm ex_tree).
+Example ex_tree_roundtrip : parse_text false (print_expr false false true ex_tree) = Some (norm ex_tree).
 Proof. apply print_parse_roundtrip_concrete; [apply ex_tree_wf | apply ex_tree_lexok]. Qed.
-Example ex_tree_fixed : print_expr true false (norm ex_tree) = print_expr true false ex_tree.
-Proof. apply (print_fixed_point_concrete false false ex_tree); [apply ex_tree_wf | apply ex_tree_lexok | apply ex_tree_roundtrip]. Qed.
+Example ex_tree_fixed : print_expr true false true (norm ex_tree) = print_expr true false true ex_tree.
+Proof. apply (print_fixed_point_concrete false false true ex_tree); [apply ex_tree_wf | apply ex_tree_lexok | apply ex_tree_roundtrip]. Qed.
 
 (* conditional and index access: nested conditionals, assignment in a branch, comma in a branch and in an index *)
 Definition ex_tree2 : expr :=
   ECond (EBin BNullish (EId (zs "a")) (EIndex (EId (zs "b")) (EBin BComma (EId (zs "c")) (EId (zs "d")))))
         (EBin BAssign (EIndex (EDot (EId (zs "e")) (zs "f")) (ENum (zs "0"))) (ECond (EId (zs "g")) (EId (zs "h")) (EId (zs "i"))))
         (EBin BAdd (ECond (EId (zs "j")) (EBin BComma (EId (zs "k")) (EId (zs "l"))) (EId (zs "m"))) (EUn UPostInc (EIndex (EId (zs "n")) (EId (zs "o"))))).
-Example ex_tree2_print : print_expr true false ex_tree2 = zs "a??b[c,d]?e.f[0]=g?h:i:(j?(k,l):m)+n[o]++".
+Example ex_tree2_print : print_expr true false true ex_tree2 = zs "a??b[c,d]?e.f[0]=g?h:i:(j?(k,l):m)+n[o]++".
 Proof. vm_compute. reflexivity. Qed.
 Example ex_tree2_wf : wf ex_tree2 /\ lexok ex_tree2.
 Proof.
   unfold ex_tree2. simpl. unfold word_ok, word_shape, id_shape, num_shape.
   repeat split; try discriminate; try (left; repeat split; try discriminate; vm_compute; reflexivity); try (vm_compute; reflexivity); try (intro; reflexivity); try (intro; discriminate).
 Qed.
-Example ex_tree2_roundtrip : parse_text false (print_expr true false ex_tree2) = Some (norm ex_tree2).
+Example ex_tree2_roundtrip : parse_text false (print_expr true false true ex_tree2) = Some (norm ex_tree2).
 Proof. apply print_parse_roundtrip_concrete; apply ex_tree2_wf. Qed.
 
 (* calls and new: a call inside the callee of "new" (directly, under a member access, as the base of an
@@ -98,25 +98,25 @@ Definition ex_tree3 : expr :=
         (ACons (EBin BComma (EId (zs "e")) (EId (zs "f")))
         (ACons (EBin BAssign (EId (zs "g")) (ENew (EIndex (EId (zs "h")) (ECall (EId (zs "i")) (ACons (ENum (zs "1")) ANil))) (ACons (EId (zs "j")) ANil)))
         (ACons (EUn UPostInc (EDot (ENew (EId (zs "k")) ANil) (zs "l"))) ANil)))).
-Example ex_tree3_print_min : print_expr true false ex_tree3 = zs "new(a()).b().c(new new d(),(e,f),g=new h[i(1)](j),new k().l++)".
+Example ex_tree3_print_min : print_expr true false true ex_tree3 = zs "new(a()).b().c(new new d(),(e,f),g=new h[i(1)](j),new k().l++)".
 Proof. vm_compute. reflexivity. Qed.
-Example ex_tree3_print : print_expr false false ex_tree3 = zs "new (a()).b().c(new new d()(), (e, f), g = new h[i(1)](j), new k().l++)".
+Example ex_tree3_print : print_expr false false true ex_tree3 = zs "new (a()).b().c(new new d()(), (e, f), g = new h[i(1)](j), new k().l++)".
 Proof. vm_compute. reflexivity. Qed.
 Example ex_tree3_wf : wf ex_tree3 /\ lexok ex_tree3.
 Proof.
   unfold ex_tree3. simpl. unfold word_ok, word_shape, id_shape, num_shape.
   repeat split; try discriminate; try (left; repeat split; try discriminate; vm_compute; reflexivity); try (vm_compute; reflexivity); try (intro; reflexivity); try (intro; discriminate).
 Qed.
-Example ex_tree3_roundtrip : forall mw, parse_text false (print_expr mw false ex_tree3) = Some (norm ex_tree3).
+Example ex_tree3_roundtrip : forall mw, parse_text false (print_expr mw false true ex_tree3) = Some (norm ex_tree3).
 Proof. intro mw. apply print_parse_roundtrip_concrete; apply ex_tree3_wf. Qed.
-Example ex_tree3_fixed : forall mw, print_expr mw false (norm ex_tree3) = print_expr mw false ex_tree3.
-Proof. intro mw. apply (print_fixed_point_concrete true false ex_tree3 _ (proj1 ex_tree3_wf) (proj2 ex_tree3_wf) (ex_tree3_roundtrip true)). Qed.
+Example ex_tree3_fixed : forall mw, print_expr mw false true (norm ex_tree3) = print_expr mw false true ex_tree3.
+Proof. intro mw. apply (print_fixed_point_concrete true false true ex_tree3 _ (proj1 ex_tree3_wf) (proj2 ex_tree3_wf) (ex_tree3_roundtrip true)). Qed.
 
 (* numeric literal texts: only a plain integer needs the space before "." *)
 Definition ex_tree4 : expr :=
   EBin BSub (EBin BAdd (EDot (ENum (zs "1.5")) (zs "a")) (EBin BMul (EDot (ENum (zs "1e21")) (zs "b")) (EDot (ENum (zs "0xff")) (zs "c"))))
             (EBin BPow (EDot (ENum (zs "2")) (zs "d")) (EIndex (ENum (zs "5e-7")) (ENum (zs "12")))).
-Example ex_tree4_print : print_expr true false ex_tree4 = zs "1.5.a+1e21.b*0xff.c-2 .d**5e-7[12]".
+Example ex_tree4_print : print_expr true false true ex_tree4 = zs "1.5.a+1e21.b*0xff.c-2 .d**5e-7[12]".
 Proof. vm_compute. reflexivity. Qed.
 Example ex_tree4_wf : wf ex_tree4 /\ lexok ex_tree4.
 Proof.
@@ -129,7 +129,7 @@ Proof.
   - right. right. left. exists (zs "5"), [45], (zs "7"). repeat split; try discriminate. right. reflexivity.
   - left. repeat split; discriminate.
 Qed.
-Example ex_tree4_roundtrip : forall mw, parse_text false (print_expr mw false ex_tree4) = Some (norm ex_tree4).
+Example ex_tree4_roundtrip : forall mw, parse_text false (print_expr mw false true ex_tree4) = Some (norm ex_tree4).
 Proof. intro mw. apply print_parse_roundtrip_concrete; apply ex_tree4_wf. Qed.
 
 (* forbidIn (the head of a for loop): "in" is parenthesised where the grammar parameter [~In] reaches, and only there *)
@@ -140,17 +140,44 @@ Definition ex_tree5 : expr :=
            (EBin BIn (EId (zs "f")) (EId (zs "g")))
            (EBin BLogOr (EUn UNot (EBin BIn (EId (zs "h")) (EId (zs "i"))))
                         (ECall (EId (zs "j")) (ACons (EBin BIn (EId (zs "k")) (EIndex (EId (zs "l")) (EBin BIn (EId (zs "m")) (EId (zs "n"))))) ANil)))).
-Example ex_tree5_print_fi : print_expr true true ex_tree5 = zs "a=(b in c),(d in e)?f in g:!(h in i)||j(k in l[m in n])".
+Example ex_tree5_print_fi : print_expr true true false ex_tree5 = zs "a=(b in c),(d in e)?f in g:!(h in i)||j(k in l[m in n])".
 Proof. vm_compute. reflexivity. Qed.
-Example ex_tree5_print : print_expr true false ex_tree5 = zs "a=b in c,d in e?f in g:!(h in i)||j(k in l[m in n])".
+Example ex_tree5_print : print_expr true false true ex_tree5 = zs "a=b in c,d in e?f in g:!(h in i)||j(k in l[m in n])".
 Proof. vm_compute. reflexivity. Qed.
 Example ex_tree5_wf : wf ex_tree5 /\ lexok ex_tree5.
 Proof.
   unfold ex_tree5. simpl. unfold word_ok, word_shape, id_shape.
   repeat split; try discriminate; try (left; repeat split; try discriminate; vm_compute; reflexivity); try (vm_compute; reflexivity); try (intro; reflexivity); try (intro; discriminate).
 Qed.
-Example ex_tree5_roundtrip : forall mw fi, parse_text fi (print_expr mw fi ex_tree5) = Some (norm ex_tree5).
+Example ex_tree5_roundtrip : forall mw fi, parse_text fi (print_expr mw fi false ex_tree5) = Some (norm ex_tree5).
 Proof. intros mw fi. apply print_parse_roundtrip_concrete; apply ex_tree5_wf. Qed.
 (* the flag matters: without the parentheses the [~In] parser does not read the text back *)
-Example ex_tree5_flag_needed : parse_text true (print_expr true false ex_tree5) = None.
+Example ex_tree5_flag_needed : parse_text true (print_expr true false true ex_tree5) = None.
 Proof. vm_compute. reflexivity. Qed.
+
+(* statement start (fix ac301ad, finding C13-D7): an expression statement must not begin with "let [" *)
+Definition ex_let : expr :=
+  EBin BAssign (EIndex (EId (zs "let")) (EId (zs "x")))
+               (EBin BAdd (EUn UPostInc (EDot (EIndex (EId (zs "let")) (EIndex (EId (zs "let")) (EId (zs "y")))) (zs "z")))
+                          (ECall (EIndex (EId (zs "let")) (ENum (zs "0"))) ANil)).
+Example ex_let_stmt : print_expr true false true ex_let = zs "(let)[x]=let[let[y]].z+++let[0]()".
+Proof. vm_compute. reflexivity. Qed.
+Example ex_let_for_init : print_expr true true false ex_let = zs "let[x]=let[let[y]].z+++let[0]()".
+Proof. vm_compute. reflexivity. Qed.
+Example ex_let_wf : wf ex_let /\ lexok ex_let.
+Proof.
+  unfold ex_let. simpl. unfold word_ok, word_shape, id_shape, num_shape.
+  repeat split; try discriminate; try (left; repeat split; try discriminate; vm_compute; reflexivity); try (vm_compute; reflexivity); try (intro; reflexivity); try (intro; discriminate).
+Qed.
+Example ex_let_roundtrip : forall mw, parse_stmt_text (print_expr mw false true ex_let) = Some (norm ex_let).
+Proof. intro mw. apply print_stmt_roundtrip_all; apply ex_let_wf. Qed.
+(* the guard is needed: without the parentheses the text is not an expression statement *)
+Example ex_let_guard_needed : parse_stmt_text (print_expr true false false ex_let) = None.
+Proof. vm_compute. reflexivity. Qed.
+(* the witnesses of C13-D7 *)
+Example d7_witnesses :
+  print_expr true false true (EIndex (EId (zs "let")) (EId (zs "x"))) = zs "(let)[x]" /\
+  print_expr true false true (EUn UPostInc (EDot (EIndex (EId (zs "let")) (EId (zs "x"))) (zs "y"))) = zs "(let)[x].y++" /\
+  print_expr true false true (ECall (EIndex (EId (zs "let")) (EId (zs "x"))) ANil) = zs "(let)[x]()" /\
+  print_expr true false true (EBin BAssign (EId (zs "a")) (EIndex (EId (zs "let")) (EId (zs "x")))) = zs "a=let[x]".
+Proof. vm_compute. repeat split. Qed.
